@@ -175,8 +175,39 @@ impl<'r> Gen<'r> {
         }
     }
 
+    /// a call of a pure built-in whose arguments and result have type `t` (or bool for the float predicates)
+    fn builtin(&mut self, t: T, d: u32, scope: &[VarInfo]) -> Option<String> {
+        let (names1, names2, names3): (&[&str], &[&str], &[&str]) = match t {
+            T::Float => (
+                &["abs", "sqrt", "sin", "cos", "floor", "ceil", "frac", "exp2", "log2", "saturate", "rsqrt", "trunc", "round", "rcp"],
+                &["min", "max", "pow", "step", "fmod", "atan2"],
+                &["clamp", "lerp", "smoothstep"],
+            ),
+            T::Int => (&["abs"], &["min", "max"], &["clamp"]),
+            T::Uint => (&["countbits", "reversebits", "firstbitlow"], &["min", "max"], &["clamp"]),
+            T::Bool => {
+                if !self.opts.floats {
+                    return None;
+                }
+                let f = *self.rng.pick(&["isnan", "isinf", "isfinite"]);
+                return Some(format!("{}({})", f, self.expr(T::Float, d, scope)));
+            }
+            _ => return None,
+        };
+        Some(match self.rng.below(3) {
+            0 => format!("{}({})", self.rng.pick(names1), self.expr(t, d, scope)),
+            1 => format!("{}({}, {})", self.rng.pick(names2), self.expr(t, d, scope), self.expr(t, d, scope)),
+            _ => format!("{}({}, {}, {})", self.rng.pick(names3), self.expr(t, d, scope), self.expr(t, d, scope), self.expr(t, d, scope)),
+        })
+    }
+
     /// ternary, comma, assignment expression, increment, call
     fn common_forms(&mut self, t: T, d: u32, scope: &[VarInfo]) -> String {
+        if self.rng.chance(1, 6) && (t != T::Float || self.opts.floats) {
+            if let Some(b) = self.builtin(t, d, scope) {
+                return b;
+            }
+        }
         match self.rng.below(7) {
             0 | 1 => format!("({} ? {} : {})", self.expr(T::Bool, d, scope), self.expr(t, d, scope), self.expr(t, d, scope)),
             2 => format!("({}, {})", self.expr_any(d, scope), self.expr(t, d, scope)),
